@@ -55,6 +55,7 @@ def u_enqueue(ctx, index):
 
 def u_send_datapoint(ctx, index):
   h = ClientHarness(ctx, index)
+  ctx.assume(relay_bp_inv(h))      # invariant: assumed before, proved after
   m, dp = ctx.fresh(Atom, 'metric'), ctx.fresh(DP, 'dp')
   old = h.queue.term
   n0 = z3.Length(old)
@@ -88,6 +89,7 @@ def u_send_datapoint(ctx, index):
             z3.Implies(z3.And(n0 >= h.max_q, z3.Not(qf0)), z3.BoolVal(len(full_events) == 1)))
   ctx.check('C09/sendDatapoint/full_signal_only_at_high_watermark',
             z3.Implies(z3.BoolVal(len(full_events) > 0), z3.And(n0 >= h.max_q, z3.Not(qf0))))
+  ctx.check('C09/sendDatapoint/I_bp_relay', relay_bp_inv(h))
   # a send is scheduled whenever there is a connection (so the queue cannot sit idle)
   if h.connected:
     pend = h.factory.fields['deferSendPending']
@@ -97,12 +99,14 @@ def u_send_datapoint(ctx, index):
 
 def u_send_high_priority(ctx, index):
   h = ClientHarness(ctx, index)
+  ctx.assume(relay_bp_inv(h))      # invariant: assumed before, proved after
   m, dp = ctx.fresh(Atom, 'metric'), ctx.fresh(DP, 'dp')
   old = h.queue.term
   h.ip.run(FACTORY + '.sendHighPriorityDatapoint', [m, dp], self_obj=h.factory)
   ctx.cover('sendHP/returns')
   ctx.check('C07/sendHighPriorityDatapoint/jumps_the_queue_without_disturbing_it',
             h.queue.term == z3.Concat(z3.Unit(TItem.mk(m, dp)), old))
+  ctx.check('C09/sendHighPriorityDatapoint/I_bp_relay', relay_bp_inv(h))
   ctx.check('C07/sendHighPriorityDatapoint/never_dropped', z3.BoolVal('fullQueueDrops' not in [e[1][0] for e in h.log.of('instrumentation.increment')]))
 
 
@@ -128,23 +132,20 @@ def u_schedule_send(ctx, index):
 # ---- the protocol's sendQueued -------------------------------------------------------------------
 
 def relay_bp_inv(h):
-  """C09 relay side: an outstanding full signal always has a pending wake-up:
-  queueFull.called ==> |queue| >= LOW_WATERMARK  \\/  a sendQueued is pending (timer active)
-                       \\/ the producer is paused (resumeProducing will call sendQueued)
-                       \\/ not connected (connectionMade will call sendQueued)"""
+  """C09 relay side, invariant at the exit of every handler (single thread):
+        queueFull.called  ==>  |queue| >= SEND_QUEUE_LOW_WATERMARK      and      not queueHasSpace.called
+  i.e. whenever the full signal is outstanding the queue really is above the low watermark; as soon
+  as a send takes it below, queueHasSpace fires, which re-arms both deferreds and signals space.
+  (Stronger than "a wake-up is pending", and it needs no assumption about timers firing.)"""
   f = h.factory
   qf = f.fields['queueFull']
-  pend = f.fields['deferSendPending']
-  timer = as_b(pend.active) if isinstance(pend, DelayedCall) else z3.BoolVal(False)
-  proto = f.fields['connectedProtocol']
-  connected = proto is not None
-  paused = as_b(proto.fields['paused']) if connected else z3.BoolVal(False)
-  return z3.Implies(as_b(qf.called), z3.Or(z3.ToReal(h.queue.length()) >= h.low, timer, paused,
-                                           z3.BoolVal(not connected)))
+  qs = f.fields['queueHasSpace']
+  return z3.And(z3.Implies(as_b(qf.called), z3.ToReal(h.queue.length()) >= h.low), z3.Not(as_b(qs.called)))
 
 
 def u_proto_send_queued(ctx, index):
   h = ClientHarness(ctx, index, connected=True, prefix='C07/')
+  ctx.assume(relay_bp_inv(h))      # invariant: assumed before, proved after
   h.protocol.cls = index.cls(PICKLE_P)
   h.ip.specs[FACTORY + '.takeSomeFromQueue'] = take_spec(h)
   old = h.queue.term
@@ -234,6 +235,7 @@ def as_py(v):
 
 def u_resume_pause(ctx, index):
   h = ClientHarness(ctx, index, connected=True)
+  ctx.assume(relay_bp_inv(h))      # invariant: assumed before, proved after
   h.protocol.cls = index.cls(PICKLE_P)
   h.ip.specs[FACTORY + '.takeSomeFromQueue'] = take_spec(h)
   which = ctx.choose(2, 'resume')
@@ -254,6 +256,7 @@ def u_resume_pause(ctx, index):
 
 def u_destination_down(ctx, index):
   h = ClientHarness(ctx, index, prefix='C07/')
+  ctx.assume(relay_bp_inv(h))      # invariant: assumed before, proved after
   old = h.queue.term
   Q = FACTORY + '.destinationDown'
   state = {}
@@ -295,9 +298,7 @@ def u_destination_down(ctx, index):
     ctx.cover('destinationDown/removed')
     ctx.check('C07/destinationDown/queue_emptied_after_reinjection', h.queue.length() == 0)
     # C09: a destination that is dropped with the full signal outstanding must let go
-    ctx.check('C09/destinationDown/I_bp_relay',
-              z3.Implies(as_b(h.factory.fields['queueFull'].called),
-                         z3.Or(z3.ToReal(h.queue.length()) >= h.low, z3.BoolVal(len(h.log.of('events.cacheSpaceAvailable')) >= 1))))
+    ctx.check('C09/destinationDown/I_bp_relay', relay_bp_inv(h))
   else:
     ctx.check('C07/destinationDown/queue_kept_otherwise', h.queue.term == old)
 
